@@ -4,10 +4,12 @@
    one value lane end to end (Model/ValuePipeline.v: the lane object's dirty flag and sync queue,
    write_to_buffer, the routing of its responses, each remote's uplink), for any number of remotes and every
    order of sets, sync requests, lane writes, links, unlinks and write completions.
-   Not modelled: command decoding, and the task interleavings of the agent runtime and of the agent's own loop
-   (that the loop lets a changed lane write until it has nothing left is C06's / C05's subject and is checked
-   end to end by the harness c01e). *)
-From SwimV Require Import Model.Uplinks Proofs.UplinksProofs Model.ValuePipeline Proofs.ValuePipelineProofs.
+   Proofs/WriteLoopProofs.v: the agent task's own write bookkeeping (Model/WriteLoop.v: flagged items, writers at
+   hand, writes in flight), tied to the code by the loop's own trace (harness c01w): a changed lane is offered the
+   chance to write until it has nothing left.
+   Not modelled: command decoding, and the task interleavings of the agent runtime (exercised end to end by the
+   harness c01e). *)
+From SwimV Require Import Model.Uplinks Proofs.UplinksProofs Model.ValuePipeline Proofs.ValuePipelineProofs Model.WriteLoop Proofs.WriteLoopProofs.
 Open Scope N_scope.
 
 (* whatever was skipped while the remote was slow, an event written for a value lane carries the value
@@ -69,3 +71,30 @@ Proof. exact linked_remote_converges. Qed.
 (* the premise is met by a reachable state *)
 Theorem C01_owes_witness : Owes 1 (pexec (pipe0 [48]) [PAdd 1; PLink 1; PSet [53]]).
 Proof. exact owes_witness. Qed.
+
+(* ---- the agent task's write bookkeeping (Model/WriteLoop.v) ---- *)
+
+(* for every run of the loop - every sequence of events, flaggings by handlers and answers of the items - no writer
+   is lost or duplicated: each item's writer is at hand or lent to exactly one write in flight *)
+Theorem C01_loop_no_writer_lost : forall items its s, wl_run (wl0 items) its = Some s ->
+  forall x, WriteLoop.mem x items = xorb (WriteLoop.mem x (wl_writers s)) (WriteLoop.mem x (wl_pending s))
+            /\ WriteLoop.mem x (wl_writers s) && WriteLoop.mem x (wl_pending s) = false.
+Proof. exact no_writer_lost. Qed.
+
+(* after every pass an item that is still flagged has a write in flight, whose completion brings the loop back *)
+Theorem C01_loop_flagged_item_has_write_in_flight : forall items its it s s',
+  wl_run (wl0 items) its = Some s -> wl_iter s it = Some s' ->
+  forall x, WriteLoop.mem x (wl_dirty s') = true -> WriteLoop.mem x (wl_pending s') = true.
+Proof. exact flagged_item_has_write_in_flight. Qed.
+
+(* a change a handler reported is not forgotten: the item stays flagged until it has answered that it has nothing
+   more to write *)
+Theorem C01_loop_reported_change_stays_flagged : forall items its s, wl_run (wl0 items) its = Some s ->
+  forall x, WriteLoop.mem x (wl_owed s) = true -> WriteLoop.mem x (wl_dirty s) = true.
+Proof. exact reported_change_stays_flagged. Qed.
+
+(* so at a quiescent point nothing is owed *)
+Theorem C01_loop_quiescent_nothing_owed : forall items its it s s',
+  wl_run (wl0 items) its = Some s -> wl_iter s it = Some s' -> wl_pending s' = [] ->
+  forall x, WriteLoop.mem x (wl_owed s') = false.
+Proof. exact quiescent_nothing_owed. Qed.
